@@ -311,6 +311,11 @@ enum Cert {
     TwoRoles,
     /// two Modbus role extensions carrying the same role (authority mode only)
     TwoRolesSame,
+    /// authority mode: a client certificate WITHOUT a role, issued by an intermediate authority that
+    /// itself carries a role extension; the client presents leaf + intermediate (fixtures/pki/mint_chain.py)
+    ChainLeafNoRole,
+    /// ... and a leaf with the role "viewer" under the same intermediate (whose own role is "operator")
+    ChainLeafViewer,
     /// client role, authority mode, expected server name is the IP literal "127.0.0.1":
     /// the certificate's only subjectAltName is IP:127.0.0.1
     IpNameMatch,
@@ -354,6 +359,9 @@ async fn cell_server(min13: bool, self_signed: bool, authz: bool, offer: (&'stat
         (false, Cert::TwoRolesSame) => ("client_tworoles_same", "client_tworoles_same"),
         (true, Cert::TwoRoles) => ("ss_client_tworoles", "ss_client_tworoles"),
         (true, Cert::TwoRolesSame) => return ev,
+        (false, Cert::ChainLeafNoRole) => ("client_chain_norole", "client_chain_norole"),
+        (false, Cert::ChainLeafViewer) => ("client_chain_viewer", "client_chain_viewer"),
+        (true, Cert::ChainLeafNoRole) | (true, Cert::ChainLeafViewer) => return ev,
         (false, Cert::WrongAuthority) => ("client_wrong_ca", "client_wrong_ca"),
         (false, Cert::Expired) => ("client_expired", "client_expired"),
         (false, Cert::NotYetValid) => ("client_not_yet", "client_not_yet"),
@@ -387,7 +395,9 @@ async fn cell_server(min13: bool, self_signed: bool, authz: bool, offer: (&'stat
     };
     // in self-signed mode the only acceptable certificate is the configured one, byte for byte
     let cert_ok = match (self_signed, cert) {
-        (false, Cert::Valid) | (false, Cert::OtherRole) => true,
+        (false, Cert::Valid) | (false, Cert::OtherRole) | (false, Cert::ChainLeafViewer) => true,
+        // the role is the client certificate's own: an authority's extension is not the peer's role
+        (false, Cert::ChainLeafNoRole) => !authz,
         // without an authorization handler the role is never looked at; with one, "exactly the single
         // role extension" means none and two are both refused
         (false, Cert::RoleLess) | (false, Cert::TwoRoles) | (false, Cert::TwoRolesSame) | (true, Cert::TwoRoles) => !authz,
@@ -423,7 +433,7 @@ async fn cell_server(min13: bool, self_signed: bool, authz: bool, offer: (&'stat
                 ev.violation(format!("{cell}:write_not_delivered_once"), format!("the admitted peer's write reached the handler {} times", writes.len()), rep.clone());
             }
             if authz {
-                let want_role = if cert == Cert::OtherRole { "viewer" } else { "operator" };
+                let want_role = if cert == Cert::OtherRole || cert == Cert::ChainLeafViewer { "viewer" } else { "operator" };
                 if roles != vec![want_role.to_string()] {
                     ev.violation(format!("{cell}:role_delivered_{:?}", roles), format!("the authorization handler received roles {roles:?}, the certificate carries {want_role:?}"), rep.clone());
                 } else {
@@ -592,8 +602,8 @@ pub fn c09(args: &Args) -> i32 {
     for min13 in [false, true] {
         for self_signed in [false, true] {
             for (oi, _) in OFFERS.iter().enumerate() {
-                for cert in [Cert::Valid, Cert::WrongAuthority, Cert::Expired, Cert::NotYetValid, Cert::RoleLess, Cert::OtherRole, Cert::TwoRoles, Cert::TwoRolesSame] {
-                    if self_signed && cert == Cert::TwoRolesSame {
+                for cert in [Cert::Valid, Cert::WrongAuthority, Cert::Expired, Cert::NotYetValid, Cert::RoleLess, Cert::OtherRole, Cert::TwoRoles, Cert::TwoRolesSame, Cert::ChainLeafNoRole, Cert::ChainLeafViewer] {
+                    if self_signed && matches!(cert, Cert::TwoRolesSame | Cert::ChainLeafNoRole | Cert::ChainLeafViewer) {
                         continue;
                     }
                     for authz in [false, true] {
@@ -654,20 +664,20 @@ pub fn c09(args: &Args) -> i32 {
     let meta = Meta {
         property_id: "C09",
         level: "fault_enumeration",
-        rule: "one evaluation = one cell of the grid {min 1.2, 1.3} x {authority, self-signed} x {authz, no authz (server role)} x {rodbus as server, rodbus as client} x peer offers {TLS1.2 only, TLS1.3 only, both} x peer certificate {valid, wrong authority / other certificate, wrong name (client role), expired, not yet valid, role-less, other role, two role extensions (different / equal); client role with an IP-literal expected name: certificate with that IP as subjectAltName / DNS name only / another IP}: a real handshake between the rodbus endpoint and an independent TLS stack (CPython ssl/OpenSSL) which then sends a Modbus write; plus plaintext Modbus sent to the TLS port. Oracle: truth table from the cell coordinates (admit iff certificate valid for the mode and a version >= minimum is offered; negotiated version = highest common), handler/authorization logs must be empty in refused cells, role delivered = role extension of the certificate. Every cell is run: the grid is enumerated completely. distinct = cells".into(),
+        rule: "one evaluation = one cell of the grid {min 1.2, 1.3} x {authority, self-signed} x {authz, no authz (server role)} x {rodbus as server, rodbus as client} x peer offers {TLS1.2 only, TLS1.3 only, both} x peer certificate {valid, wrong authority / other certificate, wrong name (client role), expired, not yet valid, role-less, other role, two role extensions (different / equal), a role-less / viewer leaf presented with its intermediate authority which itself carries the role operator; client role with an IP-literal expected name: certificate with that IP as subjectAltName / DNS name only / another IP}: a real handshake between the rodbus endpoint and an independent TLS stack (CPython ssl/OpenSSL) which then sends a Modbus write; plus plaintext Modbus sent to the TLS port. Oracle: truth table from the cell coordinates (admit iff certificate valid for the mode and a version >= minimum is offered; negotiated version = highest common), handler/authorization logs must be empty in refused cells, role delivered = role extension of the certificate. Every cell is run: the grid is enumerated completely. distinct = cells".into(),
         assumptions: vec![
             "validity periods of the fixtures are checked against today's clock (2010-2011 expired, 2100-2110 not yet valid); the resumption leg mints a certificate that expires during the run".into(),
             "certificates with two role extensions are minted by DER surgery (fixtures/pki/mint_extra.py); a role extension that is not a UTF8String is not tested".into(),
         ],
         exhaustive: Some(true),
         floors: vec![
-            ("handshakes_attempted".into(), 244),
+            ("handshakes_attempted".into(), 268),
             ("admitted_as_expected".into(), 40),
             ("refused_as_expected".into(), 100),
             ("roles_checked".into(), 8),
             ("resumption_scenarios".into(), 0),
         ],
-        min_classes: 244,
+        min_classes: 268,
     };
     finish(args, meta, ev, started)
 }
